@@ -195,8 +195,15 @@ func (m *memDag) Remove(ctx context.Context, c cid.Cid) error {
 	m.removed = append(m.removed, c)
 	return nil
 }
-func (m *memDag) RemoveMany(ctx context.Context, cs []cid.Cid) error { panic("RemoveMany not used") }
-func (m *memDag) Pinning() ipld.NodeAdder                            { return m }
+func (m *memDag) RemoveMany(ctx context.Context, cs []cid.Cid) error {
+	for _, c := range cs {
+		if err := m.Remove(ctx, c); err != nil {
+			return err
+		}
+	}
+	return nil
+}
+func (m *memDag) Pinning() ipld.NodeAdder { return m }
 
 // snapshot returns a copy of the store restricted to the first n written blocks.
 func (m *memDag) snapshot(n int) *memDag {
